@@ -381,20 +381,28 @@ def run(prog, rep, tier, repo):
             (problems if seen['rich'] else unread_r).append('Richardson step is not R[n,m-1] + (R[n,m-1] - R[n-1,m-1])/(4^m - 1)')
         # odd-node sum: a + (2k-1)*hn for k in 1..=2^(n-1), hn = (b-a)/2^n
         okodd = False
-        for b_ in pdb.closures_of(f.body.key):
-            g = prog.func(b_.key)
-            rv = g.return_values()
-            k = ('arg', 2, g.names.get(2))
-            if len(rv) == 1 and tag(rv[0]) == 'call' and short(rv[0][1]) == 'call' and tag(rv[0][2][1]) == 'agg':
-                nd = rv[0][2][1][3][0]
-                if tag(nd) == 'bin' and nd[1] == 'Add' and tag(nd[3]) == 'bin' and nd[3][1] == 'Mul':
-                    c = nd[3][2]
-                    if tag(c) == 'cast' and peq(poly(c[2]), padd({(k,): 2}, {(): -1})):
-                        okodd = True
-        if not okodd:
-            problems.append('refinement nodes are not a + (2k-1) h_n')
+        seen_node = None          # a node expression a + (cast of something linear in k) * h was read but is not the odd-node one
+        owners = [f.body.key] + sorted(kk for kk in prog.closure(f.body.key) if kk in pdb.bodies and kk != f.body.key)
+        for ok_ in owners:
+            for b_ in pdb.closures_of(ok_):
+                g = prog.func(b_.key)
+                rv = g.return_values()
+                k = ('arg', 2, g.names.get(2))
+                if len(rv) == 1 and tag(rv[0]) == 'call' and short(rv[0][1]) == 'call' and tag(rv[0][2][1]) == 'agg':
+                    nd = rv[0][2][1][3][0]
+                    if tag(nd) == 'bin' and nd[1] == 'Add' and tag(nd[3]) == 'bin' and nd[3][1] == 'Mul':
+                        for c in (nd[3][2], nd[3][3]):
+                            if tag(c) == 'cast' and any(z == k for z in subterms(c)):
+                                if peq(poly(c[2]), padd({(k,): 2}, {(): -1})):
+                                    okodd = True
+                                else:
+                                    seen_node = show(nd)[:60]
+        if not okodd and seen_node:
+            problems.append('refinement nodes are %s, not a + (2k-1) h_n' % seen_node)
+        elif not okodd:
+            unread_r.append('refinement node expression a + (2k-1) h_n not found in a closure of romberg or of its helpers')
         if unread_r and not problems:
-            rep.undecided('romberg-shape', key, 'tableau stores not found as 2-D index stores: ' + '; '.join(unread_r), site_of(f.body), proof=False)
+            rep.undecided('romberg-shape', key, 'not read: ' + '; '.join(unread_r), site_of(f.body), proof=False)
         else:
             (rep.viol if problems else rep.ok)('romberg-shape', key, '; '.join(problems) if problems else
                                                'trapezoid refinement on odd nodes + Richardson factors 4^m - 1', site_of(f.body))
